@@ -49,6 +49,8 @@ def _task(t):
     kind, name, repo_root = t[:3]
     shard = t[3] if len(t) > 3 else None
     try:
+        if kind == "side":
+            return driver.verify_side(name, repo_root)
         if kind == "func":
             r = driver.verify_function(name, repo_root, shard=shard)
             if shard is not None:
@@ -67,12 +69,13 @@ def tasks_for(pid, reg):
 
 
 def _explore_task(t):
-    pid, budget, seed, repo_root, focus = t
+    pid, budget, seed, repo_root, focus, worker, nworkers = t
     try:
         from . import bounded
         driver.load_contracts()
         from .extract import REPO
-        return bounded.explore(pid, budget_s=budget, seed=seed, repo_root=repo_root or REPO, focus=focus)
+        return bounded.explore(pid, budget_s=budget, seed=seed, repo_root=repo_root or REPO, focus=focus,
+                               only=set(focus) if focus else None, worker=worker, nworkers=nworkers)
     except Exception as exc:  # pragma: no cover
         import traceback
         return {"error": str(exc), "traceback": traceback.format_exc(), "histories": 0, "calls_checked": 0, "failure": None}
@@ -81,7 +84,7 @@ def _explore_task(t):
 def bounded_search(pid, focus, budget_s, seed, repo_root, nproc=None):
     """run the bounded explorer in parallel with different seeds; returns (aggregate dict, first failure or None)"""
     nproc = nproc or NPROC
-    tasks = [(pid, budget_s, seed * 1000 + k, repo_root, focus) for k in range(nproc)]
+    tasks = [(pid, budget_s, seed * 1000 + k, repo_root, focus, k, nproc) for k in range(nproc)]
     ctx = mp.get_context("fork")
     agg = {"histories": 0, "calls_checked": 0, "distinct": 0, "workers": nproc, "budget_s_each": budget_s, "errors": []}
     failure = None
@@ -142,6 +145,7 @@ def run_check(pid: str, tier: str, repo_root=None, seed=0):
             tasks.append(("func", f, repo_root))
     tasks.sort(key=lambda t: 0 if len(t) > 3 else 1)          # heavy functions first
     tasks += [("lemma", l, repo_root) for l in lemmas]
+    tasks.append(("side", pid, repo_root))
     results = []
     if tasks:
         ctx = mp.get_context("fork")
@@ -152,6 +156,7 @@ def run_check(pid: str, tier: str, repo_root=None, seed=0):
     known_ids = {k["obligation"]: k for k in known.get("known", []) if k.get("property") == pid}
     viol, undecided, errors, known_seen = [], [], [], []
     covers = {}
+    unknown_funcs = {}
     n_obl = n_dis = 0
     backends = {}
     solver_s = 0.0
@@ -191,6 +196,7 @@ def run_check(pid: str, tier: str, repo_root=None, seed=0):
                 errors.append((ob["id"], "vacuous hypotheses: " + ob.get("reason", "")))
             else:
                 undecided.append((ob["id"], ob.get("reason", "solver returned unknown")))
+                unknown_funcs.setdefault(res["function"], []).append(ob["id"])
     if n_obl == 0:
         errors.append((pid, "zero obligations generated"))
     lines = []
@@ -225,6 +231,7 @@ def run_check(pid: str, tier: str, repo_root=None, seed=0):
     # functions outside the symbolic subset: bounded stand-in (labelled, never counted as proved)
     still_undecided = []
     und_funcs = [n for (n, why) in undecided if n in {r["function"] for r in results if r["status"] == "undecided"}]
+    und_funcs = sorted(set(und_funcs) | {f for f in unknown_funcs if "/" not in f})
     if und_funcs:
         agg, failure = bounded_search(pid, [f.split("/")[-1] for f in und_funcs], BOUNDED_BUDGET_S, seed, repo_root)
         agg["focus"] = und_funcs
@@ -239,7 +246,7 @@ def run_check(pid: str, tier: str, repo_root=None, seed=0):
             viol.append((None, None))
         elif agg["calls_checked"] > 0 and not agg["errors"]:
             for (n, why) in undecided:
-                if n in und_funcs:
+                if n in und_funcs and n not in unknown_funcs:
                     lines.append(f"BOUNDED property={pid} {n}: not decided symbolically ({why}); bounded stand-in found no "
                                  f"violation in {agg['histories']} histories / {agg['calls_checked']} monitored calls")
                 else:
